@@ -70,8 +70,7 @@ def run(tier, build, replay=None):
         base = {"cases": [replay], "impl": [i]}
         data = {"jobs": [], "impl": [], "model": [], "base": base}
         if "ok" in i:
-            fr = [(x["ev"], x["lot"], x["amt"]) for x in i["ok"]["fractions"]]
-            raw = core.run_model([hist.line(30, l4.encode_input(replay, fr, None, None, True))])
+            raw = core.run_model([l4.model_line(replay, i, None, None, True, i)])
             data = {"jobs": [[0, None, None]], "impl": [i], "model": [l4.decode_computed(raw[0], replay)], "base": base}
     else:
         data = l4.run(tier)
@@ -115,6 +114,7 @@ def run(tier, build, replay=None):
         "samples": base["cases"][:2],
         "traces_validated_against_impl": len(data["jobs"]),
         "correspondence_mismatches": mism,
+        "end_to_end_stream": hist.ods_stats(base["cases"]),
     })
     out.assumptions = ["CPython decimal (libmpdec) is modelled by Base/Dec.v (validated by the correspondence, accuracy proved in DecProofs.v)"]
     return out.finish(proofs, build)
